@@ -91,6 +91,9 @@ CHECKS = {
  'C22': ('fault_enumeration', 'exhaustive crash points and torn prefixes of one registry block update x concurrent reader process at every writer position',
          'Four writers (UpdateNoLocks of slot 3, of slot 65 next to the CRC, Update with locks, Remove) on a block with three handles: the writer process is killed before every mutating file operation and after every torn prefix of the .cow write and of the 4096-byte block write (every 62-byte and 512-byte boundary, every byte inside the changed slot, around the CRC); for every crash plan a second OS process reads the block while the writer is paused before each earlier operation. The concurrent reader and a later cold reader must be served exactly the old or exactly the new handles, never an error or a record that was never written.',
          'A completed write is durable; one concurrent reader at one position per plan (torn plans: reader positions {none, just before the torn write} in quick, all in thorough).', '6/C22', 'FAULTX', True),
+ 'C37': ('exploration', 'stateless model checking of 2-3 committers with a monitor on every registry block write (install events per node version)',
+         'All committer scenarios of C02 and C04 (same node, sibling nodes, two stores, splits, first root, three writers) under every schedule within the deviation bound, with a monitor that decodes every registry block image before it is written: per logical id and version the set of installed successors (active blob ids) must have one element, a version never regresses, and at the moment an existing node is re-pointed its new active blob must exist and parse. (Crash points: every crash plan of C08/C10 checks with fsck that each reachable node points at a blob that loads; recovery to pre-commit handles is C09, a known finding.)',
+         'Layer (a) of the plan only: no separate TLA+ model was built; brand-new registry entries are judged when they become reachable.', '6/C37', 'SCHED', True),
 }
 NA_REASON = 'check not built yet in this session; no claim is made (see DESIGN.md section 6 for the plan)'
 
